@@ -29,6 +29,26 @@ ANCHORS = [
     ("EMITS_ERROR_EVENTS", "src/sync/mod.rs", r"for err in &final_stats\.errors \{\s*(SyncEvent::Error) \{", "flag"),
     ("EXIT_CONSULTS_ERRORS", "src/main.rs", r"if (!stats\.errors\.is_empty\(\)) \|\| stats\.verification_failures > 0 \{\s*anyhow::bail!", "flag"),
     ("EXIT_CONSULTS_VERIFICATION", "src/main.rs", r"if !stats\.errors\.is_empty\(\) \|\| (stats\.verification_failures > 0) \{\s*anyhow::bail!", "flag"),
+    # --- C04 wire leg / C14: magic sniffing of the remote helper (src/bin/sy-remote.rs) ---
+    ("ZSTD_MAGIC_APPLY_DELTA", "src/bin/sy-remote.rs",
+     r"let delta_json = if stdin_data\.len\(\) >= [0-9]+((?:\s*&& stdin_data\[[0-9]+\] == 0x[0-9A-Fa-f]+)+)\s*\{", "idxhexlist"),
+    ("SNIFF_MIN_LEN_APPLY_DELTA", "src/bin/sy-remote.rs", r"let delta_json = if stdin_data\.len\(\) >= ([0-9]+)", "nat"),
+    ("ZSTD_MAGIC_RECEIVE_FILE", "src/bin/sy-remote.rs",
+     r"let file_data = if stdin_data\.len\(\) >= [0-9]+((?:\s*&& stdin_data\[[0-9]+\] == 0x[0-9A-Fa-f]+)+)\s*\{", "idxhexlist"),
+    ("SNIFF_MIN_LEN_RECEIVE_FILE", "src/bin/sy-remote.rs", r"let file_data = if stdin_data\.len\(\) >= ([0-9]+)", "nat"),
+    # --- C14: compression decision (src/compress/mod.rs) ---
+    ("COMPRESS_SIZE_GATE_SMART", "src/compress/mod.rs", r"pub fn should_compress_smart\([\s\S]*?if file_size < ([0-9_\s\*]+) \{", "nat"),
+    ("COMPRESS_SIZE_GATE_ADAPTIVE", "src/compress/mod.rs", r"pub fn should_compress_adaptive\([\s\S]*?if file_size < ([0-9_\s\*]+) \{", "nat"),
+    ("COMPRESS_SAMPLE_SIZE", "src/compress/mod.rs", r"^\s*const SAMPLE_SIZE: usize = ([0-9_\s\*]+);", "nat"),
+    ("COMPRESS_RATIO", "src/compress/mod.rs", r"Ok\(ratio\) if ratio < ([0-9]+\.[0-9]+) =>", "ratio"),
+    ("COMPRESSED_EXTENSIONS", "src/compress/mod.rs", r"^const COMPRESSED_EXTENSIONS: &\[&str\] = &\[([^\]]*)\];", "strlist"),
+    # --- C14: sparse handling ---
+    ("SPARSE_THRESHOLD_LOCAL", "src/transport/local.rs", r"^\s*let threshold = ([0-9_]+);", "nat"),
+    ("SPARSE_BLOCK_SIZE_LOCAL", "src/transport/local.rs", r"^\s*const BLOCK_SIZE: usize = ([0-9_\s\*]+);", "nat"),
+    # the sender's branch: compressed payloads go to `receive-file`, `Compression::None` goes to SFTP (no helper)
+    ("SENDER_COMPRESSED_COMMAND", "src/transport/ssh.rs",
+     r'Compression::Lz4 \| Compression::Zstd => \{[\s\S]*?"\{\} (receive-file) \{\} \{\}"[\s\S]*?Compression::None => \{[\s\S]*?sftp\.create\(', "str"),
+    ("SENDER_SPARSE_COMMAND", "src/transport/ssh.rs", r'"\{\} (receive-sparse-file) \{\} --total-size \{\} --regions \'\{\}\' \{\}"', "str"),
     ("TEMP_SUFFIX", "src/transport/local.rs", r'name\.push\("([^"]+)"\);', "str"),
 ]
 
@@ -55,6 +75,17 @@ def extract(repo):
                 items = re.findall(r'"([^"]*)"', ms[0])
                 vals[name] = ("List String", "[" + ", ".join('"' + i + '"' for i in items) + "]")
             elif kind == "bool": vals[name] = ("Bool", "true" if ms[0] else "false")
+            elif kind == "idxhexlist":
+                # `&& stdin_data[i] == 0xNN` comparisons; the indices must be 0, 1, 2, … in order
+                pairs = re.findall(r"\[([0-9]+)\] == 0x([0-9A-Fa-f]+)", ms[0])
+                if [int(i) for i, _ in pairs] != list(range(len(pairs))):
+                    raise ValueError("magic comparison indices are not 0..n-1: " + repr(pairs))
+                vals[name] = ("List Nat", "[" + ", ".join(str(int(h, 16)) for _, h in pairs) + "]")
+            elif kind == "ratio":
+                # a decimal literal as an exact rational (no floats in the model)
+                ip, fp = ms[0].split(".")
+                vals[name + "_NUM"] = ("Nat", str(int(ip + fp)))
+                vals[name + "_DEN"] = ("Nat", str(10 ** len(fp)))
         except Exception as e:
             errs.append(f"{name}: {e}")
     return vals, errs
